@@ -4,13 +4,13 @@
 package main
 
 import (
+	"time"
+	"strings"
 	"bufio"
 	"encoding/hex"
 	"encoding/json"
 	"fmt"
 	"os"
-	"strings"
-	"time"
 
 	"math/big"
 
@@ -45,12 +45,12 @@ type EvmReq struct {
 	CallGas uint64 `json:"call_gas,omitempty"`
 }
 type EvmRes struct {
-	Err      string `json:"err"`
-	Ret      string `json:"ret"`
-	Root     string `json:"root"`
-	Logs     string `json:"logs"`
-	Dump     string `json:"dump,omitempty"`
-	InnerOog bool   `json:"inner_oog,omitempty"`
+	Err  string `json:"err"`
+	Ret  string `json:"ret"`
+	Root string `json:"root"`
+	Logs string `json:"logs"`
+	Dump string `json:"dump,omitempty"`
+	InnerOog bool `json:"inner_oog,omitempty"`
 }
 
 func allForks() *params.ChainConfig {
@@ -77,9 +77,7 @@ func (t *oogTracer) CaptureFault(env *vm.EVM, pc uint64, op vm.OpCode, gas, cost
 	}
 	return nil
 }
-func (t *oogTracer) CaptureEnd(output []byte, gasUsed uint64, d time.Duration, err error) error {
-	return nil
-}
+func (t *oogTracer) CaptureEnd(output []byte, gasUsed uint64, d time.Duration, err error) error { return nil }
 
 func runEvm(q *EvmReq) (r EvmRes) {
 	defer func() {
@@ -103,9 +101,7 @@ func runEvm(q *EvmReq) (r EvmRes) {
 	val, _ := new(big.Int).SetString(q.Value, 10)
 	origin := common.HexToAddress(q.Origin)
 	ctx := vm.Context{
-		CanTransfer: func(db vm.StateDB, addr common.Address, amount *big.Int) bool {
-			return db.GetBalance(addr).Cmp(amount) >= 0
-		},
+		CanTransfer: func(db vm.StateDB, addr common.Address, amount *big.Int) bool { return db.GetBalance(addr).Cmp(amount) >= 0 },
 		Transfer: func(db vm.StateDB, sender, recipient common.Address, amount *big.Int) {
 			db.SubBalance(sender, amount)
 			db.AddBalance(recipient, amount)
@@ -191,9 +187,7 @@ func main() {
 	var t *trie.Trie
 	var sdisk *ethdb.MemDatabase
 	var sdb *state.StateDB
-	saddr := func(k string) common.Address {
-		return common.BytesToAddress(append([]byte("verif-account-"), unhex(k)...))
-	}
+	saddr := func(k string) common.Address { return common.BytesToAddress(append([]byte("verif-account-"), unhex(k)...)) }
 	for {
 		line, err := in.ReadBytes('\n')
 		if len(line) == 0 && err != nil {
@@ -258,11 +252,13 @@ func main() {
 					sdb.RevertToSnapshot(int(new(big.Int).SetBytes(unhex(q.Value)).Int64()))
 				case "sdb-finalise":
 					sdb.Finalise(true)
-				case "sdb-root":
-					root := sdb.IntermediateRoot(true)
+				case "sdb-finalise0":
+					sdb.Finalise(false)
+				case "sdb-root", "sdb-root0":
+					root := sdb.IntermediateRoot(q.Cmd == "sdb-root")
 					r.Value = hex.EncodeToString(root[:])
-				case "sdb-commit":
-					root, e := sdb.Commit(true)
+				case "sdb-commit", "sdb-commit0":
+					root, e := sdb.Commit(q.Cmd == "sdb-commit")
 					if e != nil {
 						r.Err = e.Error()
 					}
